@@ -600,7 +600,12 @@ impl Case {
                 // one worker command in point-stepping mode: stops at the points inside the command (not inside done())
                 let state = self.ctl.role_state(Role::Worker);
                 // (a sweeper stopped at a probe point holds a lock the snapshot needs: go by the last snapshot then)
-                let queue_len = if self.cfg.points == "probe" && self.last_snap.is_some() { self.last_snap.as_ref().unwrap().queue_len } else { self.cache.verif_snapshot().queue_len };
+                // (the last snapshot may predate the latest sends: an acknowledgement that is still pending while the worker waits at its
+                //  gate belongs to a queued command)
+                let queue_len = if self.cfg.points == "probe" && self.last_snap.is_some() {
+                    let pending = self.acks.iter().filter(|a| poll_ack(a).is_none()).count();
+                    std::cmp::max(self.last_snap.as_ref().unwrap().queue_len, pending)
+                } else { self.cache.verif_snapshot().queue_len };
                 if state != RoleState::AtGate || queue_len == 0 || self.worker_at_point { skipped = true; }
                 else {
                     self.ctl.set_stepping(Role::Worker, true);
